@@ -119,6 +119,14 @@ CLAIMED["C18"] = {
     "technique": "contracts on LieGroupBase/TangentBase::isApprox; per-path VCs by symbolic-scalar execution; z3 (QF_NRA) on path conditions; polynomial normal form",
 }
 
+CLAIMED["C09"] = {
+    "text": "For every group and operation: all subsets of optional outputs give the identical value expression and identical Jacobian expressions; arguments keep "
+            "their cells; an output bound to a block of a larger matrix writes exactly that block; a repeated call after unrelated activity (statics, other "
+            "elements) and self-assigned results are the identical expression - decided as same-execution DAG identities over hash-consed expressions, i.e. for all inputs.",
+    "note": "Trusted: tracer hash-consing; A-RAND; auto-valid tracing. Scalar-cell granularity (no byte-level effects).",
+    "technique": "frame conditions on the traces of the real templates: same-execution expression-DAG identity and sentinel cells",
+}
+
 NOT_APPLICABLE = {
     "C14": "quantifies over thread schedules; contract verification of one sequential call cannot express or decide data-race freedom (no thread model in any installed deductive back end for this C++ code) - see DESIGN.md section 5",
     "C19": "the oracle is the compiler's accept/reject verdict over a matrix of client programs, not a pre/postcondition of any function - see DESIGN.md section 5",
